@@ -110,6 +110,18 @@ INFO = {
  "C11r9-equal-entries-dropped-at-writing": ("C11", "process_docs skips entries equal to one already written", "two sections (or tests) with the same name, doc and flag, e.g. 'setup' in several tests"),
  "C13r9-one-page-per-first-dot-stem": ("C13", "filenames de-duplicated by the text before the FIRST dot", "two *.cmake files of one directory sharing the text before their first dot (utils.cmake, utils.strings.cmake)"),
  "C20r9-header-list-on-the-class": ("C20", "RSTWriter stores the header list on the class and looks the character up when a heading is rebuilt", "two documents with different header lists alive at once + a title change of the earlier one"),
+ "C04r10-group-text-from-source": ("C04", "argument_text takes a parenthesised group's raw source text and collapses whitespace", "a documented generic command / add_test with a group whose tokens touch ('AND(B OR C)') or with a comment inside"),
+ "C06r10-lexing-inside-a-debug-log-call": ("C06", "a DEBUG log record whose formatting fills the token stream: logging swallows the CMakeSyntaxError, the parser resumes after the fault", "a log handler at DEBUG level (settings file) + a lexical fault between commands: exit 0, page written"),
+ "C07r10-tab-after-hash-stripped": ("C07", "clean_doc_lines strips one space OR tab after the leader", "a doccomment whose nested reST body is indented with a tab directly after '#'"),
+ "C08r10-kwargs-marks-first-documented-frame": ("C08", "process_cmake_parse_arguments walks down the stack to the first documented frame", "documented outer definition + undocumented inner one holding the call + the inner kind switched off"),
+ "C10r10-option-in-ignored-body-skipped": ("C10", "undocumented option()/function()/macro() inside the body of an ignored definition is skipped", "undocumented option in a test/member implementation, or in an undocumented function with include_undocumented_function off"),
+ "C12r10-cmake-removed-everywhere": ("C12", "the extension is dropped with str.replace('.cmake', '')", "'.cmake' inside the prefix, a directory name or the base name"),
+ "C14r10-islink-relative-to-input": ("C14", "the symbolic-link test joins the subdirectory to the INPUT path instead of the walked directory", "-r, a symbolic link to a directory one level below the input"),
+ "C15r10-absolute-patterns-normalised": ("C15", "absolute exclude patterns pass through os.path.normpath (trailing slash lost)", "an absolute directory-only pattern with a glob that also matches a file"),
+ "C16r10-recursive-default-false": ("C16", "argparse default of -r is False instead of None (the command-line layer always sets it)", "input.recursive: true in a settings file and no -r"),
+ "C17r10-prefix-from-realpath": ("C17", "the default prefix is the base name of os.path.realpath(input)", "input path = symbolic link to a directory of another name, no -p"),
+ "C18r10-output-name-cut-at-first-dot": ("C18", "output file name = relative path cut at its first dot", "a dotted directory or base name: pages collapse onto one file, unrelated files overwritten"),
+ "C19r10-extra-arguments-through-remove-item": ("C19", "options built from ARGV with list(REMOVE_ITEM input output)", "an extra argument spelled exactly like the input or the output argument"),
  "C18r2-sort-by-splitext": ("C18", "files sorted by (stem, extension) instead of by name", "a directory with names like Foo.cmake and Foo-x.cmake: stdout page order is not the sorted name order"),
 }
 
@@ -133,7 +145,7 @@ for name, (prop, change, needs) in INFO.items():
     d = os.path.join(R, "seeded", name)
     if not os.path.isdir(d):
         continue
-    r2 = "r2" if "r2-" in name else ("r3" if "r3-" in name else ("r4" if "r4-" in name else ("r5" if "r5-" in name else ("r6" if "r6-" in name else ("r7" if "r7-" in name else ("r8" if "r8-" in name else ("r9" if "r9-" in name else "")))))))
+    r2 = "r2" if "r2-" in name else ("r3" if "r3-" in name else ("r4" if "r4-" in name else ("r5" if "r5-" in name else ("r6" if "r6-" in name else ("r7" if "r7-" in name else ("r8" if "r8-" in name else ("r9" if "r9-" in name else ("r10" if "r10-" in name else ""))))))))
     after = parse(os.path.join(R, ".logs", "seed%s_%s.log" % (r2, prop)))
     before = parse(os.path.join(R, ".logs", "seed%sbefore_%s.log" % (r2, prop)))
     meta = {"breaks_property": prop, "change": change, "needs_to_manifest": needs,
